@@ -18,6 +18,13 @@ open OH.Model OH.Model.Peg OH.Model.Parser OH.Generated.Grammar
 def ParsesTo {α} (g : G) (build : T → PM α) (s rest : List Char) (x : α) : Prop :=
   ∃ t : T, run g false (s ++ rest) = some ⟨[t], s, rest⟩ ∧ build t = .ok x
 
+/-- introduction rule: give the rule name and the inner pairs; the text is the printed string -/
+theorem ParsesTo.mk' {α} {g : G} {build : T → PM α} {s rest : List Char} {x : α}
+    (name : PRule) (kids : List T)
+    (h1 : run g false (s ++ rest) = some ⟨[.node name s kids], s, rest⟩)
+    (h2 : build (.node name s kids) = .ok x) : ParsesTo g build s rest x :=
+  ⟨_, h1, h2⟩
+
 abbrev dc := Print.digitChar
 
 /-! ### what may follow, in printed output -/
